@@ -8,7 +8,7 @@ VARIABLES l, tid
 Trace == ndJsonDeserialize("trace.ndjson")
 
 \* IF (not \/): inside an action TLC would explore both disjuncts and print for true conditions too
-Chk(c, prop, aspect, detail) == IF c THEN TRUE ELSE PrintT(<<"VIOL", tid, Trace[l].i, prop, aspect, detail>>)
+Chk(c, prop, aspect, detail) == IF c THEN TRUE ELSE PrintT(<<"VIOL", tid, (IF "i" \in DOMAIN Trace[l] THEN Trace[l].i ELSE 0), prop, aspect, detail>>)
 
 \* print resolution of the percentages (1e-6 percent of the cycle) plus floor/ceil slack, in us
 Eps(e) == e.totalUs \div 100000000 + 2
